@@ -166,7 +166,10 @@ def run_fit(cfg):
 
     def h(e):
         y = e.reals("y", n)
-        if cfg.get("design") == "identity":
+        if cfg.get("design") == "int":
+            # integer-typed feature matrix (counts, codes) with real-valued targets
+            X = sx.int_array([[e.int(f"X_{i}_{j}", -9, 9) for j in range(d)] for i in range(n)])
+        elif cfg.get("design") == "identity":
             # the design matrix only enters through Xm @ beta: with X = I_n the predictions are
             # n independent arbitrary reals (beta_i [+ beta_n]) and every query stays linear
             X = sx.sarr([[1 if i == j else 0 for j in range(d)] for i in range(n)])
@@ -205,6 +208,7 @@ def run_fit(cfg):
         inits = [r for r in log if r[0] == "init"]
         fits = [r for r in log if r[0] == "fit"]
         e.prove(len(inits) == 1 and inits[0][1].get("fit_intercept") is False and inits[0][1].get("positive") is positive, "inner-solver-config")
+        e.prove(len(inits) == 1 and inits[0][1].get("copy_X", True) is True, "inner-solver-config/copy_X(the-caller's-X-is-never-handed-over-for-in-place-work)")
         if not stopped:
             e.prove(1 <= len(fits) <= max_iter and est.n_iter_ == len(fits) - 1, "n_iter_")
         qq = Fraction(1, 2) if half else q
@@ -290,6 +294,9 @@ def replay_fit(cfg, inputs, label):
     rng = numpy.random.RandomState(0)
     y = numpy.array([float(inputs.get(f"y_{i}", i)) for i in range(n)])
     X = numpy.array([[float(inputs.get(f"X_{i}_{j}", i + j)) for j in range(d)] for i in range(n)])
+    if cfg.get("design") == "int":
+        X = numpy.array([[int(inputs.get(f"X_{i}_{j}", i + j + 1)) for j in range(d)] for i in range(n)], dtype=numpy.int64)
+        y = y + 0.37
     if cfg.get("design") == "identity":
         # real least squares cannot return an arbitrary beta: use a real regression problem instead
         n = 6
@@ -341,6 +348,18 @@ def replay_fit(cfg, inputs, label):
             return True, dict(history="fit, set_params(positive=%r), fit" % (not cfg["positive"]), inner_solver_positive=used, note="no new inner solver built" if not used else "")
         return False, "refit uses the new option"
     inits = [c for c in calls if c[0] == "init"]
+    if label.startswith("inner-solver-config/copy_X"):
+        bad = [c[1] for c in inits if c[1].get("copy_X", True) is not True]
+        if bad:
+            Xf = numpy.asfortranarray(X.astype(float)) if False else numpy.ascontiguousarray(X, dtype=float)
+            X1 = Xf.copy()
+            qr.QuantileLinearRegression(quantile=q, fit_intercept=cfg["icpt"], max_iter=3).fit(Xf, y, sample_weight=numpy.arange(1.0, n + 1))
+            return True, dict(inner_solver_kwargs=str(bad[0]), caller_X_modified=not numpy.array_equal(Xf, X1))
+        return False, "copy_X is True"
+    if label == "target-unchanged":
+        seen_y = [c[2] for c in calls if c[0] == "fit"]
+        if seen_y and not numpy.allclose(seen_y[0], y):
+            return True, dict(X_dtype=str(X.dtype), y=y.tolist(), target_seen_by_the_inner_solver=seen_y[0].tolist())
     if len(inits) != 1 or inits[0][1].get("fit_intercept") is not False or inits[0][1].get("positive") is not cfg["positive"]:
         return True, dict(inner_solver=str([c[1] for c in inits]))
     fits = [c for c in calls if c[0] == "fit"]
@@ -468,6 +487,8 @@ def configs(tier):
             for icpt in (True, False):
                 for positive in (False, True):
                     out.append(dict(kind="fit", n=n, d=d, weighted=weighted, icpt=icpt, positive=positive, half=False, max_iter=1, design="symbolic"))
+    for icpt in (True, False):
+        out.append(dict(kind="fit", n=2, d=1, weighted=False, icpt=icpt, positive=False, half=False, max_iter=1, design="int"))
     # IRLS step lemma: independent arbitrary predictions (X = I_n), two (three) least-squares calls
     for n in (1, 2) if tier == "quick" else (1, 2, 3):
         for weighted in (False, True):
